@@ -21,7 +21,9 @@ MUST = ["lockstep.rounds", "yielded.clean", "yielded.flagged", "withheld.bad", "
 RULE = ("case = (generated document, packet whose length is what the definition consumes -9..+9 bytes, or whose "
         "length-controlling fields make a computed size 0 or negative, parse_bad_pkts in {True, False}); each packet is "
         "offered to packet_generator as its own stream; the recorded read log and warnings of the step decide: clean "
-        "delivery <=> all reads inside the packet with non-negative widths and final cursor == 8*len. "
+        "delivery <=> all reads inside the packet with non-negative widths and final cursor == 8*len; the same packet "
+        "repeated in one run, the same raw object parsed twice, and two generators in lock step with one warnings recorder "
+        "per round (the mismatch warning arrives in the round of the mismatched packet). "
         "distinct_nontrivial = distinct (model consumption class, delivery class, read-log anomaly class, "
         "parse_bad_pkts, dynamic-length kind present) signatures; (exact, clean, none, True, static) is trivial and excluded.")
 ASSUMPTIONS = ["the length-mismatch warning is recognised by origin (a UserWarning raised from definitions.py), not by its text",
